@@ -4,6 +4,7 @@ import (
 	"context"
 	"crypto/sha256"
 	"fmt"
+	"strings"
 	"testing"
 	"time"
 
@@ -23,6 +24,8 @@ type Op struct {
 	Proc  int
 	Probe *Phase
 	On    int
+	// CancelCtx (start ops): the context given to Start is cancelled right after Start returned.
+	CancelCtx bool
 }
 
 // RCGen is one generation of processors on the factory: K processors (any mix
@@ -117,7 +120,7 @@ func genRC(t *rapid.T) RCScript {
 			var op Op
 			if doStart {
 				i := rapid.IntRange(0, len(pending)-1).Draw(t, "which")
-				op = Op{Kind: "start", Proc: pending[i]}
+				op = Op{Kind: "start", Proc: pending[i], CancelCtx: rapid.Bool().Draw(t, "cancel-start-ctx")}
 				running = append(running, pending[i])
 				pending = append(pending[:i], pending[i+1:]...)
 			} else {
@@ -150,7 +153,7 @@ func keyRC(s *RCScript) string {
 	for _, g := range s.Gens {
 		fmt.Fprintf(h, "#%s|%v|%v|%d", g.CfgMode, g.Cfg, g.Signals, g.Unstarted)
 		for _, op := range g.Ops {
-			fmt.Fprintf(h, "|%s%d", op.Kind, op.Proc)
+			fmt.Fprintf(h, "|%s%d%v", op.Kind, op.Proc, op.CancelCtx)
 			if op.Probe != nil {
 				fmt.Fprintf(h, "@%d:%d,%d", op.On, op.Probe.First, op.Probe.Post)
 				for _, c := range op.Probe.Calls {
@@ -309,15 +312,24 @@ func runGeneration(c *vt.C, s *RCScript, gi int, procs []*proc, src *source, th 
 	}
 	running := 0
 	startsAfterStop, anyStop := 0, false
+	cancelled := 0 // Start contexts cancelled so far in this generation
 	for oi, op := range g.Ops {
 		switch op.Kind {
 		case "start":
 			p := procs[op.Proc]
-			if err := p.comp.Start(ctx, componenttest.NewNopHost()); err != nil {
+			if err := startComp(p.comp, componenttest.NewNopHost(), op.CancelCtx); err != nil {
 				return 0, vt.Failf("refcount/start-error", "generation %d op %d: Start of processor %d returned %v", gi, oi, op.Proc, err)
 			}
 			p.running = true
 			running++
+			if op.CancelCtx {
+				cancelled++
+				if running == 1 {
+					c.Class("first-user-started-with-ctx-cancelled-after-Start")
+				} else {
+					c.Class("later-user-started-with-ctx-cancelled-after-Start")
+				}
+			}
 			if anyStop {
 				startsAfterStop++
 			}
@@ -343,6 +355,12 @@ func runGeneration(c *vt.C, s *RCScript, gi int, procs []*proc, src *source, th 
 				stalled := "refcount/checker-stopped-while-users-remain"
 				if gi > 0 && !anyStop {
 					stalled = "generation/checker-not-running/" + g.CfgMode
+				}
+				if cancelled > 0 && strings.HasPrefix(why, "no memory reading at all") {
+					where += fmt.Sprintf(" [%d Start contexts of this generation were cancelled after Start returned]", cancelled)
+					if !anyStop {
+						stalled = "checker/stops-when-start-context-is-cancelled"
+					}
 				}
 				return 0, vt.Failf(stallSig(stalled, why), "%s: %s", where, why)
 			}
@@ -372,5 +390,5 @@ func runGeneration(c *vt.C, s *RCScript, gi int, procs []*proc, src *source, th 
 
 func TestRefCount(t *testing.T) {
 	shrinkBudget("10s") // a failing case costs milliseconds to seconds: bound the time rapid spends minimising
-	vt.Run(t, cRC, vt.N(600, 16000), genRC, runRC)
+	vt.Run(t, cRC, vt.N(480, 16000), genRC, runRC)
 }
